@@ -284,6 +284,8 @@ def main(run, tier):
             else:
                 run.failed(name, 'E2/tables', kind, dict(got=s), observed='unbalanced scope markers', required='every Push has its Pop', replayed=True)
     run.floor = 10
+    from . import printfwd
+    printfwd.add(run, tier)
     # ---- bounded
     kwd = tuple(lexmod.Lexer.keywords_dict.keys())
     configs = []
